@@ -87,7 +87,7 @@ func digest(e hx.Ev) string {
 	m := map[string]interface{}{}
 	for k, v := range e {
 		switch k {
-		case "t0", "t1", "tsLo", "tsHi", "id", "msg", "smsg", "omsg", "mode", "rw", "sync", "load", "alt":
+		case "t0", "t1", "tsLo", "tsHi", "id", "msg", "smsg", "omsg", "mode", "rw", "sync", "load", "alt", "cmp", "berr", "bok":
 		default:
 			m[k] = v
 		}
